@@ -475,8 +475,10 @@ impl<'tcx> Cx<'tcx> {
             let mut pty = self.cur_locals.get(p.local.index()).map(|t| mir::PlaceTy::from_ty(*t));
             for e in p.projection.iter() {
                 let mut fname: Option<String> = None;
+                let mut fowner: Option<String> = None;
                 if let (ProjectionElem::Field(f, _), Some(pt)) = (e, pty) {
                     if let ty::Adt(def, _) = pt.ty.kind() {
+                        fowner = Some(self.def_path(def.did()));
                         let v = match pt.variant_index {
                             Some(vi) => Some(def.variant(vi)),
                             None => if def.is_enum() { None } else { Some(def.non_enum_variant()) },
@@ -497,7 +499,7 @@ impl<'tcx> Cx<'tcx> {
                 pj.push(match e {
                     ProjectionElem::Deref => J::Arr(vec![J::s("d")]),
                     ProjectionElem::Field(f, t) => {
-                        J::Arr(vec![J::s("f"), J::n(f.index() as i128), fname.map(|n| J::s(&n)).unwrap_or(J::Null), J::s(&self.ty_s(t))])
+                        J::Arr(vec![J::s("f"), J::n(f.index() as i128), fname.map(|n| J::s(&n)).unwrap_or(J::Null), J::s(&self.ty_s(t)), fowner.map(|n| J::s(&n)).unwrap_or(J::Null)])
                     }
                     ProjectionElem::Index(l) => J::Arr(vec![J::s("i"), J::n(l.index() as i128)]),
                     ProjectionElem::ConstantIndex { offset, min_length, from_end } => J::Arr(vec![
